@@ -201,6 +201,33 @@ func bgvE2SLeaf(c *engine.Chooser, name string, k cfg) {
 		return
 	}
 	// party 0 turns the aggregate into its additive share; the others keep their masks
+	// secretShare = nil (a party without key share): the result is its own and survives a second call on the object
+	{
+		first := mpbgv.NewAdditiveShare(w.params)
+		e2s[0].GetShare(nil, aggPub, w.ct, &first)
+		if inst == 0 && hist == 0 {
+			if ov := mp.Overlap([]interface{}{"share returned by GetShare(nil, ...)", &first}, []interface{}{"protocol object", &e2s[0], "aggregate", &aggPub}); ov != "" {
+				c.Fail("C16/bgv-e2s/GetShare/output-aliases-callee-or-input", "%s", ov)
+				return
+			}
+		}
+		ct2 := w.ct.CopyNew()
+		rp.RingQ().AtLevel(ct2.Level()).Add(ct2.Value[0], ct2.Value[1], ct2.Value[0])
+		second := mpbgv.NewAdditiveShare(w.params)
+		e2s[0].GetShare(nil, aggPub, ct2, &second)
+		tm := w.params.PlaintextModulus()
+		tot := append([]uint64(nil), first.Value.Coeffs[0]...)
+		for i := range sec {
+			for j := range tot {
+				tot[j] = ref.AddMod(tot[j]%tm, sec[i].Value.Coeffs[0][j]%tm, tm)
+			}
+		}
+		if same, why := eqU(tot, w.pT); !same {
+			c.Fail("C16/bgv-e2s/GetShare/result-changed-by-a-later-call", "share obtained with secretShare=nil, read after a second GetShare on the same object, plus the masks != message: %s", why)
+			return
+		}
+		c.Cover("consecutive-calls", "bgv-getshare")
+	}
 	e2s[0].GetShare(&sec[0], aggPub, w.ct, &sec[0])
 	t := w.params.PlaintextModulus()
 	sum := make([]uint64, len(w.pT))
@@ -246,6 +273,11 @@ func bgvE2SLeaf(c *engine.Chooser, name string, k cfg) {
 	}
 	if rec.Level() != lout {
 		c.Fail("C16/bgv-s2e/GetEncryption/wrong-level", "level %d, want %d", rec.Level(), lout)
+		return
+	}
+	if !receiverAxis(c, finalCall{sig: "C16/bgv-s2e/GetEncryption", rp: rp, want: rec, preMeta: true,
+		alloc: func(d, l int) *rlwe.Ciphertext { return bgv.NewCiphertext(w.params, d, l) },
+		run:   func(o *rlwe.Ciphertext) error { return s2e[0].GetEncryption(aggC0, crp, o) }}, name) {
 		return
 	}
 	if same, why := eqU(w.decryptRingT(rp, rec, w.P.Ideal), w.pT); !same {
@@ -404,6 +436,14 @@ func bgvTransformLeaf(c *engine.Chooser, name string, k cfg) {
 		return
 	}
 	c.Outcome(name, ops.Flat(agg).Hash())
+	if inst == 0 && hist == 0 {
+		// a party's refresh share is its own: no memory shared with its protocol object, the ciphertext or the crp
+		if ov := mp.Overlap([]interface{}{"e2s half", &shares[0].EncToShareShare, "s2e half", &shares[0].ShareToEncShare}, []interface{}{"protocol object", &mtp[0], "ciphertext", &w.ct.Value, "crp", &crp}); ov != "" && n > 1 {
+			c.Fail(sig+"/GenShare/output-aliases-input-or-callee", "%s", ov)
+			return
+		}
+		c.Cover("alias", "outputs-vs-inputs-and-callee")
+	}
 
 	// expected plaintext polynomial (the output encoder is the output parameters' one: same t, same degree)
 	x := append([]uint64(nil), w.pT...)
@@ -450,6 +490,11 @@ func bgvTransformLeaf(c *engine.Chooser, name string, k cfg) {
 			c.Fail(sig+"/finalize/not-f-of-message", "%s (transform %s, decode=%v, encode=%v): %s", mode, k.tf, k.dec, k.enc, why)
 			return
 		}
+	}
+	if !receiverAxis(c, finalCall{sig: sig + "/finalize", rp: rpo, want: inpl, checkMeta: true,
+		alloc: func(d, l int) *rlwe.Ciphertext { return bgv.NewCiphertext(w.pout, d, l) },
+		run:   func(o *rlwe.Ciphertext) error { return run(w.ct, o) }}, name) {
+		return
 	}
 	c.Cover("functional", k.proto)
 }
